@@ -294,25 +294,95 @@ func (o *c15Oracle) AfterBlock(s *Sim, h int64, blk *cmttypes.Block, _ []*BuiltT
 		amount, shares *big.Int
 	}
 	var payouts []payout
+	// Running pool balances, advanced event by event, so that the pools a slash acted on are
+	// known (rewards and fees reach the active pool before evidence is handled in the same
+	// BeginBlock; reclaims and completions move stake between and out of the pools).
+	type pools struct{ act, deb *big.Int }
+	run := map[staking.Address]*pools{}
+	poolsOf := func(a staking.Address) *pools {
+		if run[a] == nil {
+			run[a] = &pools{new(big.Int), new(big.Int)}
+			if e0 := prev.esc[a]; e0 != nil {
+				run[a].act.Set(e0.active.B)
+				run[a].deb.Set(e0.deb.B)
+			}
+		}
+		return run[a]
+	}
+	type slashRec struct {
+		owner                  staking.Address
+		act, deb, lossA, lossD *big.Int
+	}
+	var slashRecs []slashRec
 	for _, ev := range res.Events {
 		if !strings.HasSuffix(ev.Type, "100_staking") {
 			continue
 		}
 		for _, a := range ev.Attributes {
 			switch string(a.Key) {
+			case (&staking.AddEscrowEvent{}).EventKind():
+				var ae staking.AddEscrowEvent
+				if events.DecodeValue(string(a.Value), &ae) == nil {
+					pl := poolsOf(ae.Escrow)
+					pl.act.Add(pl.act, ae.Amount.ToBigInt())
+				}
+			case (&staking.DebondingStartEscrowEvent{}).EventKind():
+				var de staking.DebondingStartEscrowEvent
+				if events.DecodeValue(string(a.Value), &de) == nil {
+					pl := poolsOf(de.Escrow)
+					pl.act.Sub(pl.act, de.Amount.ToBigInt())
+					pl.deb.Add(pl.deb, de.Amount.ToBigInt())
+				}
 			case (&staking.TakeEscrowEvent{}).EventKind():
 				var te staking.TakeEscrowEvent
 				if events.DecodeValue(string(a.Value), &te) == nil {
 					slashed[te.Owner] = true
 					o.slashes++
 					s.St.Inc("probe.c15.slash_events")
+					pl := poolsOf(te.Owner)
+					lossD := te.DebondingAmount.ToBigInt()
+					lossA := new(big.Int).Sub(te.Amount.ToBigInt(), lossD)
+					slashRecs = append(slashRecs, slashRec{te.Owner, new(big.Int).Set(pl.act), new(big.Int).Set(pl.deb), lossA, lossD})
+					pl.act.Sub(pl.act, lossA)
+					pl.deb.Sub(pl.deb, lossD)
 				}
 			case (&staking.ReclaimEscrowEvent{}).EventKind():
 				var re staking.ReclaimEscrowEvent
 				if events.DecodeValue(string(a.Value), &re) == nil {
 					payouts = append(payouts, payout{re.Owner, re.Escrow, re.Amount.ToBigInt(), re.Shares.ToBigInt()})
+					pl := poolsOf(re.Escrow)
+					pl.deb.Sub(pl.deb, re.Amount.ToBigInt())
 				}
 			}
+		}
+	}
+	// Slashing takes the same fraction from the active and the debonding pool.  The check is
+	// made only when the event-by-event balances reproduce the committed balances of the
+	// account (otherwise some balance change of this block is not visible in events and the
+	// pools at the moment of the slash are unknown: counted, not judged).
+	for _, sr := range slashRecs {
+		e1, pl := cur.esc[sr.owner], run[sr.owner]
+		if e1 == nil || pl.act.Cmp(e1.active.B) != 0 || pl.deb.Cmp(e1.deb.B) != 0 {
+			s.St.Inc("probe.c15.slash_fraction_skipped_untracked_balance_change")
+			continue
+		}
+		s.St.Inc("probe.c15.slash_fraction_checked")
+		if sr.act.Sign() > 0 && sr.deb.Sign() > 0 {
+			s.St.Inc("probe.c15.slash_hit_both_pools")
+		}
+		if sr.lossA.Cmp(sr.act) > 0 || sr.lossD.Cmp(sr.deb) > 0 || sr.lossA.Sign() < 0 {
+			return c15Viol("slash-exceeds-pool", fmt.Sprintf("height %d: slashing %s took %s from an active pool of %s and %s from a debonding pool of %s", h, sr.owner, sr.lossA, sr.act, sr.lossD, sr.deb))
+		}
+		// |lossA*deb - lossD*act| < max(act, deb): each loss is the exact fraction rounded down.
+		x := new(big.Int).Mul(sr.lossA, sr.deb)
+		x.Sub(x, new(big.Int).Mul(sr.lossD, sr.act))
+		x.Abs(x)
+		tol := sr.act
+		if sr.deb.Cmp(tol) > 0 {
+			tol = sr.deb
+		}
+		if x.Cmp(tol) >= 0 {
+			return c15Viol("slash-unequal-fractions", fmt.Sprintf("height %d: slashing %s took %s of %s from the active pool but %s of %s from the debonding pool: not the same fraction (beyond rounding)", h, sr.owner, sr.lossA, sr.act, sr.lossD, sr.deb))
 		}
 	}
 	epochChanged := cur.epoch != prev.epoch
